@@ -7,6 +7,9 @@ import (
 	"go/format"
 	"go/printer"
 	"go/token"
+	"io"
+	"os"
+	"os/exec"
 	"path/filepath"
 	"strings"
 
@@ -14,7 +17,23 @@ import (
 
 	"verif/harness/mdl"
 	"verif/harness/sx"
+	"verif/harness/tool"
 )
+
+// importsProcess: `vh imports-process <file>` reads Go source on stdin and writes imports.Process(file, src)
+// to stdout; it runs with the case's package directory as working directory.
+func importsProcess() {
+	src, err := io.ReadAll(os.Stdin)
+	if err != nil || len(os.Args) < 3 {
+		os.Exit(2)
+	}
+	out, err := imports.Process(os.Args[2], src, nil)
+	if err != nil {
+		fmt.Fprintln(os.Stderr, err)
+		os.Exit(1)
+	}
+	os.Stdout.Write(out)
+}
 
 // fullFile reproduces the whole output file from the model: the comment groups
 // computed by BaseCode.base_groups are put on the (pristine) AST of the setup
@@ -66,10 +85,18 @@ func fullFile(cr *caseRun) (string, string) {
 	}
 	content := res[0].Atom
 	outPath := filepath.Join(cr.Dir, "pk", "setup.gen.go")
-	optimized, err := imports.Process(outPath, []byte(content), nil)
-	if err != nil {
-		return content, "imports.Process: " + err.Error()
+	// imports.Process resolves packages relative to the working directory of the process: run it,
+	// as convergen does, from inside the module of the case
+	cmd := exec.Command(os.Args[0], "imports-process", outPath)
+	cmd.Dir = filepath.Dir(outPath)
+	cmd.Env = tool.BaseEnv()
+	cmd.Stdin = strings.NewReader(content)
+	var stdout, stderr bytes.Buffer
+	cmd.Stdout, cmd.Stderr = &stdout, &stderr
+	if err := cmd.Run(); err != nil {
+		return content, "imports.Process: " + strings.TrimSpace(stderr.String())
 	}
+	optimized := stdout.Bytes()
 	formatted, err := format.Source(optimized)
 	if err != nil {
 		return content, "format.Source: " + err.Error()
